@@ -406,7 +406,11 @@ func (w *World) judgeEventQuiescence() {
 	}
 	// leftovers that C15 reports as known findings (stale policy chain in use, dead pods' chains, old-address
 	// dispatch rules) make the state as unjudgeable here as after a synchronisation
-	if len(staleRefs(o, e)) > 0 {
+	// D8 is judged by what held when galaxy's last rebuild STARTED, not by what is left now: a policy batch that was
+	// refused ("Too many links") and not followed by a successful one means the whole rebuild of that handler was
+	// dropped - missing policy chains, pod chains that could not be written - even if the pod chains that pinned
+	// the stale chain have been removed since by the same handler
+	if w.d8Active || len(staleRefs(o, e)) > 0 {
 		w.S.Stat("c16.eq-skipped-c15-known")
 		return
 	}
